@@ -164,6 +164,13 @@ pub fn check_range(c: &RangeCase) -> CheckResult {
     // call history: in two of three cases another range was formatted into a sink that fails
     // after a few bytes just before (its text must not leak into this one)
     let sel = fp_of(&(m.len(), m.keys().next().copied()));
+    if sel % 2 == 0 && m.len() >= 2 {
+        // ... or a sibling range was formatted completely: the same combos with the same weights
+        // dealt round by one place
+        let ws: Vec<f32> = m.values().copied().collect();
+        let sib: HandRange = m.keys().enumerate().map(|(i, k)| (e_pair(k.0, k.1), ws[(i + 1) % ws.len()])).collect();
+        std::hint::black_box(sib.to_string().len());
+    }
     if sel % 3 != 0 {
         format_cut_short(&odd_range(), (sel >> 8) as usize % 40);
     }
